@@ -99,11 +99,16 @@ pub(crate) fn validate_subscription(
         return;
     }
 
+    let mut response_keys = vec![];
     let mut field_names = vec![];
 
     let walked = walk_selections(document, &operation.selection_set, |selection| {
         if let executable::Selection::Field(field) = selection {
-            field_names.push(field.name.clone());
+            // Fields with the same response key are merged into a single root field
+            if !response_keys.contains(field.response_key()) {
+                response_keys.push(field.response_key().clone());
+                field_names.push(field.name.clone());
+            }
             if matches!(field.name.as_str(), "__type" | "__schema" | "__typename") {
                 diagnostics.push(
                     field.location(),
